@@ -122,7 +122,7 @@ def report(prop, tier, seed, hs, results, known, wall, a):
         for e in r["validation_errors"]:
             errors.append("%s: shim validation: %s" % (r["harness"], str(e)[:1500]))
         for n in r["nonrepro"]:
-            errors.append("%s: counterexample for '%s' did not reproduce on the real code (encoding suspect): %s" % (r["harness"], n["name"], json.dumps(n, default=str)[:1800]))
+            errors.append("%s: counterexample for '%s' did not reproduce on the real code (encoding suspect): %s" % (r["harness"], n["name"], json.dumps(n, default=str)[:700]))
         if r["paths"] > 0 and r["paths_reachable"] == 0 and not r["harness_errors"]:
             errors.append("%s: vacuous -- no path has a satisfiable condition (reachability twin failed)" % r["harness"])
         if r["paths"] == 0 and not r["harness_errors"]:
@@ -146,8 +146,10 @@ def report(prop, tier, seed, hs, results, known, wall, a):
             continue
         seen.add(v["key"])
         print("KNOWN-FINDING: property=%s %s -- %s (replay=%s)" % (prop, v["key"], known_active[v["key"]].get("what", ""), v["replay"]))
-    for e in errors:
+    for e in errors[:12]:
         print("HARNESS-ERROR %s" % e)
+    if len(errors) > 12:
+        print("HARNESS-ERROR ... and %d more" % (len(errors) - 12))
     seen = set()
     for v in viol_unlisted:
         if v["key"] in seen:
